@@ -47,6 +47,12 @@ fn case(g: &mut Gen) -> Outcome {
                 }
                 1 => {
                     let (op, obs) = s.opaque(g);
+                    if let Err(f) = opaque_expectation(&op, &obs) {
+                        return Outcome::Fail(f);
+                    }
+                    if matches!(op, Opaque::ProtectedWithdraw { .. }) {
+                        g.label(if obs.run.is_success() { "pool_protected_withdraw_ok" } else { "pool_protected_withdraw_refused" });
+                    }
                     let committed = obs.run.is_commit();
                     g.label(match (&op, obs.run.is_success()) {
                         (Opaque::Stake { .. }, true) => "stake_ok",
